@@ -2,12 +2,48 @@ import OpenFecVerif.Model.TabCheck
 import OpenFecVerif.Gen.Rand
 import OpenFecVerif.Gen.Blocking
 import OpenFecVerif.Gen.Popcount
+import OpenFecVerif.Model.Api
 /-!
 `ofmodel`: line-protocol driver over the executable models (Appendix B of DESIGN.md).
 One output line per input line.  Evaluates models; proves nothing.
 -/
 structure DrvState where
   seed : Nat := 1
+  world : Api.World Bytes := {}
+
+def bytesIO : Api.SymIO Bytes where
+  ops := fun codec m len => if codec == 1 || (codec == 2 && m == 8) then Bytes.ops8 len
+                            else if codec == 2 then Bytes.ops4 len else Bytes.ops2 len
+  source := Bytes.source
+  hex := Bytes.toHex
+
+def parseApi (ws : List String) : Option Api.Op :=
+  let n? := fun (s : String) => s.toNat?
+  match ws with
+  | ["case", _] => some .case_
+  | ["case"] => some .case_
+  | ["nullses"] => some .nullses
+  | ["new", s, c, r] => do some (.new (← n? s) (← n? c) (← n? r))
+  | ["params", s, k, r, len, m, n1, seed] => do
+      some (.params (← n? s) ⟨← n? k, ← n? r, ← n? len, ← n? m, (← n? n1) % 256, ← seed.toInt?⟩)
+  | ["release", s] => do some (.release (← n? s))
+  | ["cb", s, pol] => do
+      some (.cb (← n? s) (if pol == "buf" then .buf else if pol == "null" then .null else if pol == "mix" then .mix else .none))
+  | ["ctrl", s, what] => do some (.ctrl (← n? s) what)
+  | ["payload", s, "id"] => do some (.payload (← n? s) 0 0)
+  | ["payload", s, "rand", seed] => do some (.payload (← n? s) 1 (← n? seed))
+  | ["build", s, e, own] => do some (.build (← n? s) (← n? e) (own == "own"))
+  | ["recv", s, e] => do some (.recv (← n? s) (← n? e) false)
+  | ["recvnull", s, e] => do some (.recv (← n? s) (← n? e) true)
+  | ["avail", s, l] => do
+      let es ← if l == "-" then some [] else (l.splitOn ",").mapM n?
+      some (.avail (← n? s) es)
+  | ["availnull", s] => do some (.availnull (← n? s))
+  | ["finish", s] => do some (.finish (← n? s))
+  | ["complete", s] => do some (.complete (← n? s))
+  | ["sources", s] => do some (.sources (← n? s))
+  | ["matrix", s] => do some (.matrix (← n? s))
+  | _ => none
 
 def nat? (s : String) : Option Nat := s.toNat?
 
@@ -35,7 +71,9 @@ def step (st : DrvState) (line : String) : DrvState × String :=
       | some v => (st, s!"ok p3={Gen.of_popcount_3 v} h32={Gen.of_hweight32 (v % 4294967296)} naive={Gen.of_hweight32_naive (v % 4294967296)}")
       | none => (st, "bad-op")
   | ["tabcheck"] => (st, "ok " ++ String.intercalate ";" TabCheck.all)
-  | _ => (st, "bad-op")
+  | ws => match parseApi ws with
+    | some op => let (w, o) := Api.step bytesIO st.world op; ({ st with world := w }, o)
+    | none => (st, "bad-op")
 
 partial def loop (h : IO.FS.Stream) (out : IO.FS.Stream) (st : DrvState) : IO Unit := do
   let line ← h.getLine
